@@ -37,7 +37,7 @@ class Scenario:
     init_snaps: int = 2
     max_attempts: int = 50
     fix_stamp: bool = True
-    fix_etag: bool = False
+    fix_etag: bool = True
     fix_gc: bool = True
     fix_gcfail: bool = True
     fix_interrupt: bool = True
@@ -79,25 +79,62 @@ class Execution:
 
         env = self.env
         instrument.install(env)
-        path = os.path.join(self.root, "t")
         instrument._tls.handle = "setup"
-        t0 = create_table(path, schema())
+        self.fake = None
+        if self.scn.backend == "local":
+            path = os.path.join(self.root, "t")
+            t0 = create_table(path, schema())
+            opener = lambda: Table(path, create_if_not_exists=False)  # noqa: E731
+        else:
+            from . import fakes3
+
+            self.fake = fakes3.FakeS3(clock=lambda: env.clock.peek_ms() / 1000.0, page_size=1000)
+            cond = self.scn.backend == "s3cas"
+            path = "t"
+            t0 = fakes3.make_table(self.fake, "t", schema=schema(), conditional=cond)
+            opener = lambda: fakes3.make_table(self.fake, "t", conditional=cond, create=False)  # noqa: E731
+            def _lock_view(me: str) -> bool:
+                for k_, o in self.fake.objects.items():
+                    if ".locks/" in k_:
+                        owner = self.env.flocks.get(k_)
+                        return owner is not None and owner != me and env.clock.peek_ms() / 1000.0 - o.mtime <= 60
+                return False
+
+            env.s3_lock_view = _lock_view
+            # requests on the lock object are scheduling points of their own
+            def _gate(op: str, kw: Dict[str, Any]) -> None:
+                key = str(kw.get("Key", ""))
+                if ".locks/" in key and env.sched.me() is not None:
+                    env.sched.gate("s3lock", op=op)
+                    if op == "delete_object":          # what is about to be deleted (after the pause): whose lock object?
+                        o = self.fake.objects.get(key)
+                        env.lock_deletes.append((env.sched.me().name, o.body.decode("utf-8", "replace") if o is not None else None))
+
+            self.fake.gate = _gate
         for j in range(1, self.scn.init_snaps + 1):
             t0.append_records([{"id": 960 + j, "k": 0}])
-        st = project.read_state(project.LocalReader(path))
+        self.path = path
+        st = project.read_state(self.reader())
         self._assign_init_ids(st)
-        self._make_orphans_and_damage(path, st)
+        if self.scn.backend == "local":
+            self._make_orphans_and_damage(path, st)
         # one Table object per handle, created outside the scheduled part
         for a in self.scn.actors:
             h = a.handle or a.name
             if h not in self.tables:
                 instrument._tls.handle = h
-                self.tables[h] = Table(path, create_if_not_exists=False)
+                self.tables[h] = opener()
+                if self.scn.lock_kind == "none":
+                    self.tables[h].metadata_manager.lock_provider = instrument.GrantAllLock(env)
             env.idx[a.name] = self.scn.idx(a.name)
         instrument._tls.handle = None
-        self.path = path
         self.init_obs = self.observe()
         self.init_obs["clock"] = env.clock.rel(env.clock.peek_ms())
+
+    def reader(self) -> Any:
+        if self.fake is not None:
+            return project.DictReader(self.fake.objects, "t")
+        return project.LocalReader(self.path)
 
     def _make_orphans_and_damage(self, path: str, st: Dict[str, Any]) -> None:
         """Old orphan files (copies of real ones under fresh names) and optional damage to a reachable file."""
@@ -140,7 +177,7 @@ class Execution:
     # ---- observation (independent reader -> the specification's storage variables) ---------------
     def observe(self) -> Dict[str, Any]:
         env = self.env
-        rd = project.LocalReader(self.path)
+        rd = self.reader()
         st = project.read_state(rd)
         ids = env.ids
         metas = []
@@ -293,6 +330,8 @@ class Execution:
         self.acked_ops: set = set()
         s = self.env.sched
         s.env_hooks["tick"] = self._tick
+        s.env_hooks["heartbeat"] = self._heartbeat
+        s.env_hooks["lapse"] = self._lapse
         for a in self.scn.actors:
             s.spawn(a.name, self._actor_body(a), role=a.role, handle=a.handle or a.name)
         err = None
@@ -309,6 +348,19 @@ class Execution:
         s.emit({"k": "Observe", "a": "env", "obs": final})
         return {"init": self.init_obs, "events": s.trace, "decisions": [list(d) if isinstance(d, tuple) else d for d in s.decisions],
                 "outcomes": self.outcomes, "errors": self.errors, "harness_error": err}
+
+    def _heartbeat(self) -> None:
+        """The heartbeat thread of every current holder renews once (an environment step)."""
+        for lp_ in list(self.env.heartbeats):
+            if lp_.is_locked:
+                who = self.env.flocks.get(lp_.key)
+                lp_._renew_once()
+                if who is not None:
+                    self.env.sched.emit({"k": "Heartbeat", "a": "env", "who": who, "ok": bool(lp_.is_locked)})
+
+    def _lapse(self) -> None:
+        self.env.clock.advance(61_000)
+        self.env.sched.emit({"k": "Tick", "a": "env", "val": self.env.clock.rel(self.env.clock.peek_ms())})
 
     def _tick(self) -> None:
         self.env.clock.advance(1)
@@ -408,7 +460,7 @@ def scn_constants(scn: Scenario) -> Dict[str, Any]:
     return {"Actors": R("<- ScnActors"), "Role": R("<- ScnRole"), "Idx": R("<- ScnIdx"), "Handle": R("<- ScnHandle"),
             "Prog": R("<- ScnProg"), "Backend": scn.backend, "LockKind": scn.lock_kind, "ClockMode": scn.clock_mode,
             "MaxClock": 1000000, "MaxAttempts": scn.max_attempts, "InitSnaps": scn.init_snaps,
-            "FixStamp": scn.fix_stamp, "FixEtag": scn.fix_etag, "FixGCOrder": scn.fix_gc, "FixGCFail": scn.fix_gcfail, "FixInterrupt": scn.fix_interrupt, "FaultKinds": set(), "FaultBudget": 0, "Grace": scn.grace, "OldFiles": False, "MarkerTimeout": 86400000}
+            "FixStamp": scn.fix_stamp, "FixEtag": scn.fix_etag, "FixGCOrder": scn.fix_gc, "FixGCFail": scn.fix_gcfail, "FixInterrupt": scn.fix_interrupt, "FaultKinds": set(), "FaultBudget": 0, "Grace": scn.grace, "OldFiles": False, "Lease": 60000, "MarkerTimeout": 86400000}
 
 
 L1_INVARIANTS = ["TypeOK", "Serializable", "LinearChain", "AckedOnce", "NoDoubleCommit", "ReachablePresent",
